@@ -196,7 +196,8 @@ type verifCreated struct {
 }
 
 type verifStorage struct {
-	clients []*verifClient
+	clients     []*verifClient
+	globClients []*verifGlobClient // clients that opted into redirect globs (looked up first)
 	journal []string
 
 	// single-fault injection (C10): at most one storage call fails per run
@@ -405,6 +406,11 @@ func (s *verifStorage) KeySet(ctx context.Context) ([]Key, error) {
 func (s *verifStorage) GetClientByClientID(ctx context.Context, id string) (Client, error) {
 	if err := s.fault("GetClientByClientID"); err != nil {
 		return nil, err
+	}
+	for _, g := range s.globClients {
+		if g.id == id {
+			return g, nil
+		}
 	}
 	if c := s.client(id); c != nil {
 		return c, nil
